@@ -43,7 +43,7 @@ describe(
         "stop exception derives from TerminationCriterion which execute() catches at the root and converts "
         "into a result; no wrapper swallows it; DOE evaluates samples in order, once, pre-seeded in order."
     ),
-    decided=["3.1 budget guard", "3.2 counter increment", "3.3 new-iteration signal", "3.4 listening window", "3.5 termination -> result", "3.6 no swallowed stop signal", "3.7 DOE order"],
+    decided=["3.1 budget guard", "3.2 counter increment", "3.3 new-iteration signal", "3.4 listening window", "3.5 termination -> result", "3.6 no swallowed stop signal", "3.7 DOE order", "3.8 the NaN policy reaches every NaN check", "3.9 no stop criterion resets the evaluation counter"],
     not_decided=["behaviour of third-party optimisers between callbacks", "time-limit accuracy", "per-level budgets of composite algorithms"],
 )
 
